@@ -165,6 +165,21 @@ CLAIMS["C14"] = dict(
     design_ref="DESIGN.md section 4, C14",
     technique="static analysis: mask-provenance / role checking of each attribute definition and method over the AST with reaching definitions")
 
+CLAIMS["C08"] = dict(
+    category="other",
+    text=("Decides: (D1) for every model factory and every option combination enumerated from the source (34 scenarios: linear "
+          "elastic x strain measures, neo-Hookean versions, Gent, J2 x kinematics x hardening laws x rate sensitivity, single- and "
+          "multi-branch viscoelastic, phase-field threshold x kinematics) the energy closure, interpreted by constant propagation "
+          "on the rest-state lattice (dual rational constants over positive material symbols, virgin state from the model's own "
+          "initial state), has value exactly 0 and zero first variation in the three diagonal directions and the isotropic one; "
+          "hardening energies vanish and flow stresses are positive at zero plastic strain; (D2) configuration-frame typing: the "
+          "finite-deformation energies depend on F only through well-typed invariants (terms in tr F cancel exactly), strain "
+          "measures have reference/intermediate frames, internal-state updates keep the frames of the state, and the closed-form "
+          "3x3 helpers (inv, detpIm1, det, deviator, sym) satisfy their polynomial identities for a generic matrix. Objectivity "
+          "and isotropy as floating-point statements on evolved states are NOT decided."),
+    design_ref="DESIGN.md section 4, C08",
+    technique="static analysis: sparse conditional constant propagation over dual rational constants (abstract interpretation of the material factories), non-commutative polynomial frame typing, polynomial identity checking")
+
 NA = {}
 
 
